@@ -28,9 +28,9 @@ ROI = 'glue.core.roi.Roi'
 
 def run(ctx):
     ix = ctx.index
-    rule_a(ctx, ix)
-    rule_b(ctx, ix)
-    rule_c(ctx, ix)
+    ctx.guard(rule_a, ctx, ix)
+    ctx.guard(rule_b, ctx, ix)
+    ctx.guard(rule_c, ctx, ix)
 
 
 def _concrete(f):
